@@ -1,5 +1,6 @@
 import Rangers.Props.C04
 import Rangers.Proofs.JournalRootFinal
+import Rangers.Proofs.JournalRootSteps2
 /-!
 # C04 — root clause, proved for regions that touch account objects
 
@@ -30,6 +31,10 @@ def StepOkR (c : Cfg) (s : ADB) : Op → Prop
   | .setData a k _ => DataOk s a k
   | .create a => CreateOk s a
   | .setBal a _ => DataOk s c.tok (c.balKey a)
+  | .addBal a _ => DataOk s c.tok (c.balKey a)
+  | .subBal a _ => DataOk s c.tok (c.balKey a)
+  | .transfer a b n => TransferOk c s a b n
+  | .qBal a => BalReadOk c s a
   | .qData a k => ReadOk s a k
   | .qExist _ | .qEmpty _ | .qNonce _ | .qSuicided _ | .qCodeSize _ | .qCodeHash _ => True
   | .snapshot | .revert _ => True
@@ -58,6 +63,10 @@ theorem step_revAtR (c : Cfg) (hp : c.p002 = true) (s : ADB) (op : Op) (hc : Ste
   | setData a k v => exact revAtR_setData s a k v hc
   | create a => exact revAtR_create s a hc
   | setBal a n => exact revAtR_setBalance s a n hc
+  | addBal a n => exact revAtR_addBalance hp s a n hc
+  | subBal a n => exact revAtR_subBalance hp s a n hc
+  | transfer a b n => exact revAtR_transfer hp s a b n hc
+  | qBal a => exact revAtR_getBalance s a hc
   | qData a k => exact revAtR_qData s a k hc
   | qExist a => exact revAtR_qExist s a
   | qEmpty a => exact revAtR_qEmpty s a
@@ -91,18 +100,18 @@ theorem revert_restores_root (c : Cfg) (hp : c.p002 = true) (s : ADB) (region : 
 
 /-! non-vacuity: an account made dirty and warm in the prefix; the region rewrites its nonce and slots
 (one of them new), nests a snapshot and a revert, reads, touches the refund counter and the access list -/
-def sWarm : ADB := setData (setNonce ADB.empty A1 1) A1 [0x6b] [7]
+def sWarm : ADB := setBalance c0 (setData (setNonce ADB.empty A1 1) A1 [0x6b] [7]) A1 7
 
 def regionR : List Op :=
   [.setData A1 [0x6b] [9], .snapshot, .setNonce A1 5, .setData A1 [0x6c] [1], .incNonce A1, .revert 1,
-   .qData A1 [0x6c], .addRefund 3, .alSlot A1 (toHash [1]), .setData A1 [0x6b] [], .create [0xa2], .setNonce [0xa2] 4]
+.qData A1 [0x6c], .addBal A1 3, .transfer A1 [0xa2] 2, .qBal A1, .subBal A1 1, .addRefund 3, .alSlot A1 (toHash [1]), .setData A1 [0x6b] [], .create [0xa2], .setNonce [0xa2] 4]
 
 example : EndOk sWarm ∧ sWarm.revisions = [] ∧ RunOk (StepOkR c0) c0 (snapshot sWarm).1 regionR ∧
     EndOk (revert c0 (run c0 (snapshot sWarm).1 regionR) (snapshot sWarm).2) := by decide
 
 /-- the region really changes what would be hashed, and the revert really brings it back -/
 example : (finalise true (run c0 (snapshot sWarm).1 regionR)).trie ≠ (finalise true sWarm).trie ∧
-    (finalise true sWarm).trie = [(A1, ⟨1, [([0x6b], [7])], emptyCodeHash⟩)] := by decide
+    mget (finalise true sWarm).trie A1 = some ⟨1, [([0x6b], [7])], emptyCodeHash⟩ := by decide
 
 /-- the first counterexample of `Props/C04` is outside the hypotheses: the written account is cold -/
 example : ¬ RunOk (StepOkR c0) c0 (snapshot (createAccount ADB.empty A1)).1 [.setData A1 [0x6b] [1]] := by decide
